@@ -32,10 +32,12 @@ ARG_SHAPES = [
     ("param", B("**", P("a"), N("2"))), ("param", B("/", N("1"), P("a"))), ("param", B("/", P("a"), P("b"))),
     ("param", B("-", B("*", P("a"), P("b")), N("1"))), ("param", B("+", P("alpha"), P("a"))),
     ("param", B("*", N("1e-7"), P("e"))), ("param", B("-", P("a_1"), P("a"))), ("param", B("*", P("x1"), V("x"))),
+    # a unary minus in front of a power (SymPy prints -a**2 for -(a**2); in Blackbird the sign binds tighter than **)
+    ("param", U("-", B("**", P("a"), N("2")))), ("param", B("*", U("-", B("**", P("a"), N("3"))), P("b"))), ("param", U("-", B("**", B("+", P("a"), N("1")), N("2")))),
     # parameter names that look like registers (q1a), constants (pix), functions (sqrt2) or p-arrays (p0)
     ("param", B("-", P("q1a"), P("a"))), ("param", B("*", P("q2_0"), P("pix"))), ("param", B("+", P("sqrt2"), P("p0"))),
     ("reg", Q(0)), ("reg", B("*", N("2"), Q(0))), ("reg", B("+", Q(0), Q(1))), ("reg", B("-", Q(1), B("*", Q(0), Q(3)))),
-    ("reg", B("/", Q(1), Q(0))), ("reg", B("-", N("1"), Q(10))), ("reg", B("*", V("x"), Q(0))),
+    ("reg", B("/", Q(1), Q(0))), ("reg", B("-", N("1"), Q(10))), ("reg", B("*", V("x"), Q(0))), ("reg", U("-", B("**", Q(0), N("2")))),
 ]
 
 # keyword-only list shapes
